@@ -1,5 +1,5 @@
 (* C03 -- Masked PSF blurring equals true 2-D convolution restricted to the mask.
-   Statements only; every proof is [exact <lemma of Proofs/C03.v>].  All theorems are about the executable
+   Statements only; every proof is [exact <lemma of Proofs/C03.v or Proofs/C03s.v>].  All theorems are about the executable
    model of Model/C03.v instantiated at the reals ([ROps]); the same Gallina terms are executed at exact
    rationals ([QOps]) against autoarray/operators/convolver.py by the correspondence run.
    Notation: [unmasked m] = the mask's pixels in slim (row-major) order; [bmask c] = the blurring mask built
@@ -7,7 +7,7 @@
    region and zero elsewhere; [conv_full N K t] = sum_{a,b} K[a][b] * N(t + half - (a,b)) (flipped, centred
    kernel, N zero outside the frame). *)
 From Coq Require Import ZArith Reals List Bool.
-From PAV Require Import Base.Res Base.NumOps Base.Sum Model.C03 Model.C03Lib Proofs.C03.
+From PAV Require Import Base.Res Base.NumOps Base.Sum Model.C03 Model.C03Lib Proofs.C03 Proofs.C03s.
 Import ListNotations.
 Local Open Scope Z_scope.
 
@@ -117,6 +117,36 @@ Theorem C03_whole_frame_method_agrees : forall m (K : list (list R)) c (g : list
   Ok (@convolve ROps c (@slim_of ROps g (unmasked m)) (@slim_of ROps g (unmasked (bmask c)))).
 Proof. exact whole_checked_agrees. Qed.
 
+(* ---- T7: the noise-free simulator (SimulatorImaging.via_image_from with add_poisson_noise_to_data=False; model
+        [simulate sky subtract normalize image K], [sim_psf] = the PSF the dataset carries, K / sum K when
+        normalize_psf): even kernels are rejected; otherwise the data is, pixel by pixel over the whole frame, the true
+        convolution of the image with that PSF, plus the sky level exactly when the sky is NOT subtracted -- for every
+        background sky level (the sky added before the noise step is the sky subtracted afterwards) ---- *)
+Theorem C03_simulated_data_is_whole_frame_convolution : forall (sky : R) subtract normalize (g K : list (list R)),
+  rectb g = true ->
+  @simulate ROps sky subtract normalize g K =
+  if oddb (rows K) && oddb (cols K)
+  then Ok (map (fun p => (@conv_full ROps (@img_fun ROps g) (@sim_psf ROps normalize K) p
+                          + (if subtract then 0 else sky))%R) (all_px g))
+  else Raise KernelException.
+Proof. exact simulate_cases. Qed.
+(* Imaging.apply_mask ([masked_data]: the whole-frame data read at the unmasked pixels) followed by the masked
+   dataset's convolver: the image that generated a sky-subtracted noise-free simulation is fitted with zero residual *)
+Theorem C03_simulated_masked_agrees : forall (sky : R) normalize (g K : list (list R)) data m c,
+  rectb g = true -> rectb m = true -> same_shape g m = true ->
+  @simulate ROps sky true normalize g K = Ok data ->
+  @convolver_init ROps m (@sim_psf ROps normalize K) = Ok c ->
+  @masked_data ROps _ g data m =
+  @convolve ROps c (@slim_of ROps g (unmasked m)) (@slim_of ROps g (unmasked (bmask c))).
+Proof. exact simulate_masked_agrees. Qed.
+Theorem C03_simulated_zero_residual : forall (sky : R) normalize (g K : list (list R)) data m c k,
+  rectb g = true -> rectb m = true -> same_shape g m = true ->
+  @simulate ROps sky true normalize g K = Ok data ->
+  @convolver_init ROps m (@sim_psf ROps normalize K) = Ok c ->
+  (nth k (@masked_data ROps _ g data m) 0 -
+   nth k (@convolve ROps c (@slim_of ROps g (unmasked m)) (@slim_of ROps g (unmasked (bmask c)))) 0 = 0)%R.
+Proof. exact simulate_zero_residual. Qed.
+
 (* ---- non-vacuity: a 4x5 frame, L-shaped mask of three pixels, asymmetric signed 3x3 kernel ---- *)
 Definition ex_m : mask := [[true; true; true; true; true]; [true; false; false; true; true];
                            [true; true; false; true; true]; [true; true; true; true; true]].
@@ -135,6 +165,21 @@ Proof.
   - exfalso. vm_compute in H. destruct H as [H _]. discriminate H.
 Qed.
 
+(* non-vacuity of T7: a 4x5 image, sky level 5, normalised and raw PSF, on the mask above *)
+Definition ex_g : list (list R) := [[1; 2; 3; 4; 5]; [0; 1; 0; 2; 0]; [3; 0; -1; 0; 2]; [1; 1; 1; 1; 1]]%R.
+Example C03_sim_hyps_satisfiable :
+  rectb ex_g = true /\ same_shape ex_g ex_m = true /\
+  (forall normalize, exists data, @simulate ROps 5%R true normalize ex_g ex_K = Ok data) /\
+  (forall normalize, exists c, @convolver_init ROps ex_m (@sim_psf ROps normalize ex_K) = Ok c).
+Proof.
+  split; [vm_compute; reflexivity|]. split; [vm_compute; reflexivity|]. split.
+  - intros normalize. rewrite C03_simulated_data_is_whole_frame_convolution by (vm_compute; reflexivity).
+    replace (oddb (rows ex_K) && oddb (cols ex_K)) with true by (vm_compute; reflexivity). eexists. reflexivity.
+  - intros normalize. pose proof (C03_convolver_init_cases ex_m (@sim_psf ROps normalize ex_K)) as H.
+    destruct (@convolver_init ROps ex_m (@sim_psf ROps normalize ex_K)) as [c|e]; [now exists c|].
+    exfalso. rewrite sim_psf_rows, sim_psf_cols in H. vm_compute in H. destruct H as [H _]. discriminate H.
+Qed.
+
 Print Assumptions C03_mask_index_array_is_slim_position.
 Print Assumptions C03_convolve_is_conv_full. Print Assumptions C03_convolve_spec_form.
 Print Assumptions C03_blurring_mask_is_region. Print Assumptions C03_no_blurring_is_conv_of_masked_image.
@@ -143,3 +188,5 @@ Print Assumptions C03_operator_is_linear. Print Assumptions C03_outside_irreleva
 Print Assumptions C03_even_kernel_rejected. Print Assumptions C03_footprint_outside_rejected.
 Print Assumptions C03_convolver_init_cases. Print Assumptions C03_whole_frame_agrees. Print Assumptions C03_zero_residual.
 Print Assumptions C03_whole_frame_method. Print Assumptions C03_whole_frame_method_agrees.
+Print Assumptions C03_simulated_data_is_whole_frame_convolution. Print Assumptions C03_simulated_masked_agrees.
+Print Assumptions C03_simulated_zero_residual.
